@@ -547,7 +547,12 @@ def run_property(prop, tier, obligations, meta, partial=False):
         # native replays (parent, sequential; at most 6 per run, the rest are reported on the solver verdict with their inputs)
         nrep = 0
         for r in sorted(results, key=lambda r: r.ob.id):
-            if r.status != 'violated' or r.ob.engine == 'native': continue
+            if r.status == 'violated' and r.ob.engine == 'native':
+                # the native run IS the concrete execution against the real code: keep its inputs as the replay file
+                try: r.replay = write_replay(ctx, r.ob, r, {}, run=False); r.replay['reproduced'] = True
+                except Exception as x: r.replay = {'path': '', 'reproduced': True, 'output': ''}
+                continue
+            if r.status != 'violated': continue
             extra = {}
             if r.ob.kf and r.ob.kf in kfs: extra['LSV_EXCL_' + r.ob.kf] = 1
             if nrep < int(os.environ.get('LSV_MAX_REPLAYS', '6')):
